@@ -17,6 +17,8 @@ func init() {
 		"Not decided: resolution 'as a browser would' on runtime strings (ada / net/url semantics), goquery's parsing of malformed HTML, interplay with seen/scope filtering.",
 	}
 	register(&core.Rule{ID: "R-HTML-TABLE", Props: []string{"C07"}, Doc: "extractor.HTMLAssets / HTMLOutlinks: each required (tag, attribute) pair has a Find whose Each-callback reads the attribute and appends its value (every srcset candidate) to the returned slice, conditional only on the attribute's existence; each tag block is disabled exactly by slices.Contains(DisableHTMLTag, <that tag>)", Run: ruleHTMLTable})
+	register(&core.Rule{ID: "R-READ-CONSUME", Props: []string{"C07"}, Doc: "io.Reader contract in the module's own read loops (copyWithTimeout feeds the body every extractor sees): after `n, err := src.Read(buf)` every path to the next Read or out of the function first looks at n (a branch on n or a use of buf[:n]) — a Read may return the last bytes together with io.EOF, acting on err first drops the tail of the document and the references in it", Run: ruleReadConsume})
+	register(&core.Rule{ID: "R-DEPTH-KIND", Props: []string{"C07", "C06"}, Doc: "the redirect-counting depth (*Item).GetDepth decides nothing: its result is never compared or returned by another function (only logged) — every depth decision uses GetDepthWithoutRedirections, otherwise a page reached through a redirect is treated as an asset (of an asset) and its requisites are never extracted", Run: ruleDepthKind})
 	register(&core.Rule{ID: "R-HTML-TO-CHILD", Props: []string{"C07"}, Doc: "postprocessItem: every non-nil extracted asset is added as a child with ItemGotChildren (loop without early exit besides the nil / reddit-unescape skips); every outlink is appended to the result unless skipped by the domains-crawl hop rule; HTMLAssets/HTMLOutlinks turn every raw string into a URL", Run: ruleHTMLToChild})
 }
 
@@ -649,5 +651,176 @@ func ruleHTMLToChild(r *core.Reporter) {
 		} else {
 			r.Held(nm+"/raw-to-url", 1, "every collected string becomes a URL in the result")
 		}
+	}
+}
+
+// ruleReadConsume: see the rule's Doc.
+func ruleReadConsume(r *core.Reporter) {
+	p := r.P
+	sites := 0
+	for _, fn := range p.ModFuncs {
+		if !core.InModule(fn) {
+			continue
+		}
+		allInstrs(fn, func(in ssa.Instruction) {
+			c, ok := in.(*ssa.Call)
+			if !ok || !isReaderRead(c) {
+				return
+			}
+			sites++
+			r.Analysed(fn)
+			var n ssa.Value
+			for _, ref := range *c.Referrers() {
+				if ex, ok := ref.(*ssa.Extract); ok && ex.Index == 0 {
+					n = ex
+				}
+			}
+			key := core.FuncName(fn) + "/Read"
+			if n == nil {
+				r.Violated(key, p.InstrPos(c), "the byte count of Read is discarded: data returned together with an error (io.EOF) is lost")
+				return
+			}
+			isN := func(v ssa.Value) bool {
+				for i := 0; i < 3; i++ {
+					if v == n {
+						return true
+					}
+					switch x := v.(type) {
+					case *ssa.Convert:
+						v = x.X
+					case *ssa.ChangeType:
+						v = x.X
+					default:
+						return false
+					}
+				}
+				return false
+			}
+			looksAtN := func(x ssa.Instruction) bool {
+				switch x := x.(type) {
+				case *ssa.If:
+					if b, ok := x.Cond.(*ssa.BinOp); ok && (isN(b.X) || isN(b.Y)) {
+						return true
+					}
+				case *ssa.Slice:
+					return x.High != nil && isN(x.High)
+				}
+				return false
+			}
+			// returning Read's own error fails the whole copy: nothing is silently truncated there
+			var rerr ssa.Value
+			for _, ref := range *c.Referrers() {
+				if ex, ok := ref.(*ssa.Extract); ok && ex.Index == 1 {
+					rerr = ex
+				}
+			}
+			target := func(x ssa.Instruction) bool {
+				if ret, ok := x.(*ssa.Return); ok && rerr != nil {
+					for _, res := range ret.Results {
+						if res == rerr {
+							return false
+						}
+					}
+				}
+				return x == ssa.Instruction(c) || ir.IsExit(x)
+			}
+			if at, bad := ir.PathExists([]ir.Pt{ir.After(c)}, ir.Opts{Stop: looksAtN}, target); bad {
+				r.Violated(key, p.InstrPos(at), "after Read at %s a path reaches %s without looking at the byte count: bytes returned together with io.EOF / an error are dropped (truncated body, references in the tail are never extracted)", p.InstrPos(c), p.InstrPos(at))
+			} else {
+				r.Held(key, 1, "every path from Read to the next Read / return first tests n or uses buf[:n]")
+			}
+		})
+	}
+	if sites == 0 {
+		r.Held("module/no-direct-read-loops", 0, "no direct io.Reader.Read call in module code (copies go through io.Copy*/ReadAll)")
+	}
+}
+
+// isReaderRead: call of a method Read([]byte) (int, error) (interface or concrete).
+func isReaderRead(c *ssa.Call) bool {
+	var f *types.Func
+	if c.Call.IsInvoke() {
+		f = c.Call.Method
+	} else if sc := c.Call.StaticCallee(); sc != nil {
+		f, _ = sc.Object().(*types.Func)
+	}
+	if f == nil || f.Name() != "Read" {
+		return false
+	}
+	sig, _ := f.Type().(*types.Signature)
+	if sig == nil || sig.Recv() == nil || sig.Params().Len() != 1 || sig.Results().Len() != 2 {
+		return false
+	}
+	sl, ok := sig.Params().At(0).Type().Underlying().(*types.Slice)
+	if !ok {
+		return false
+	}
+	b, ok := sl.Elem().Underlying().(*types.Basic)
+	return ok && b.Kind() == types.Byte || ok && b.Kind() == types.Uint8
+}
+
+// ruleDepthKind: see the rule's Doc.
+func ruleDepthKind(r *core.Reporter) {
+	p := r.P
+	gd := p.Func(rel(pkgModels), "(*Item).GetDepth")
+	if gd == nil {
+		r.Held("Item.GetDepth/absent", 0, "no redirect-counting depth function in the module")
+		return
+	}
+	calls, bad := 0, 0
+	for _, fn := range p.ModFuncs {
+		if !core.InModule(fn) || fn == gd {
+			continue
+		}
+		allInstrs(fn, func(in ssa.Instruction) {
+			c, ok := in.(*ssa.Call)
+			if !ok || c.Call.StaticCallee() != gd {
+				return
+			}
+			calls++
+			r.Analysed(fn)
+			seen := map[ssa.Value]bool{}
+			var chase func(v ssa.Value, d int) ssa.Instruction
+			chase = func(v ssa.Value, d int) ssa.Instruction {
+				if seen[v] || d > 6 || v.Referrers() == nil {
+					return nil
+				}
+				seen[v] = true
+				for _, ref := range *v.Referrers() {
+					switch x := ref.(type) {
+					case *ssa.BinOp:
+						switch x.Op {
+						case token.EQL, token.NEQ, token.LSS, token.LEQ, token.GTR, token.GEQ:
+							return x
+						}
+						if at := chase(x, d+1); at != nil {
+							return at
+						}
+					case *ssa.Convert:
+						if at := chase(x, d+1); at != nil {
+							return at
+						}
+					case *ssa.ChangeType:
+						if at := chase(x, d+1); at != nil {
+							return at
+						}
+					case *ssa.Phi:
+						if at := chase(x, d+1); at != nil {
+							return at
+						}
+					case *ssa.Return:
+						return x
+					}
+				}
+				return nil
+			}
+			if at := chase(c, 0); at != nil {
+				bad++
+				r.Violated(core.FuncName(fn)+"/GetDepth-decides", p.InstrPos(at), "the redirect-counting depth GetDepth() is used in a decision: an item reached through a redirect counts as one level deeper, so a redirected page is treated as an (HTML) asset and its requisites are not extracted — depth decisions use GetDepthWithoutRedirections()")
+			}
+		})
+	}
+	if bad == 0 {
+		r.Held("Item.GetDepth/only-logged", calls, "no result of GetDepth() is compared or returned by another function")
 	}
 }
